@@ -2,6 +2,7 @@
 From Cctp Require Import Lib.Bytes Lib.SMap Lib.Text Lib.Bech32.
 From Cctp Require Import Model.Codec Model.State Model.Attest Model.Ledger Model.Handlers Model.Chain.
 From Cctp Require Import Spec.Roles Proofs.MonadFacts Proofs.FrameFacts Proofs.FlowFacts Proofs.AdminFacts Proofs.PauseFacts.
+From Cctp Require Import Gen.GoH_PauseBurningAndMinting Gen.GoH_UnpauseBurningAndMinting Gen.GoH_PauseSendingAndReceivingMessages Gen.GoH_UnpauseSendingAndReceivingMessages.
 
 (* While sending-and-receiving is paused, none of the eight user-facing flows succeeds: send,
    send-with-caller, replace-message, replace-deposit-for-burn, deposit, deposit-with-caller, and receive
@@ -78,6 +79,14 @@ Theorem C12_unpause_restores : forall s,
   (sr_paused s = Some false -> set_sr_paused (Some false) (set_sr_paused (Some true) s) = s).
 Proof. intros s. destruct s. cbn. split; intros ->; reflexivity. Qed.
 
+(* The four pause handlers as translated from the Go source are the model handlers (go_X_ok: forall e request h, eq_or_unmodelled (go_X e request h) (handler e (X request) h): same result and same state wherever the model gives a verdict at all, i.e. except on denominations outside the character set the model folds; for the two helpers the right-hand side is send_message / deposit_for_burn). The statement is about the Gallina program that tools/goextract TRANSLATED from the Go source of /repo on this run (Gen/GoH_*.v, Gen/GoF_*.v; meaning of the Go constructs: Gen/GoSem.v). For a function the translator could not read the conjunct is True (Gen/<file> names the reason, the evidence lists it) and the tie for it is the differential execution alone. *)
+Theorem C12_go_pause_handlers_are_the_model :
+  go_PauseBurningAndMinting_ok /\
+  go_UnpauseBurningAndMinting_ok /\
+  go_PauseSendingAndReceivingMessages_ok /\
+  go_UnpauseSendingAndReceivingMessages_ok.
+Proof. split; [exact go_PauseBurningAndMinting_ok_proof|]. split; [exact go_UnpauseBurningAndMinting_ok_proof|]. split; [exact go_PauseSendingAndReceivingMessages_ok_proof|]. exact go_UnpauseSendingAndReceivingMessages_ok_proof. Qed.
+
 Print Assumptions C12_sr_paused_blocks_all_flows.
 Print Assumptions C12_bm_paused_blocks_deposits_and_mints.
 Print Assumptions C12_bm_flag_does_not_affect_other_flows.
@@ -87,3 +96,4 @@ Print Assumptions C12_only_the_pauser_moves_a_flag.
 Print Assumptions C12_idempotent.
 Print Assumptions C12_pause_sets_the_flag.
 Print Assumptions C12_unpause_restores.
+Print Assumptions C12_go_pause_handlers_are_the_model.
